@@ -55,7 +55,7 @@ def gen_stage(rng):
                    "stop": rng.random() < 0.25})
     alpha = rng.choice([0.5, 0.75, 0.875, 0.9, 0.7, 0.99])
     mode = rng.choice(["default"] * 6 + ["nocorr", "sigmoid"])
-    kind = rng.choice(["none", "dict", "dict", "wrong-size"])
+    kind = rng.choice(["none", "dict", "dict", "wrong-size", "wrong-size:too-few", "wrong-size:empty"])
     return {"stage": True, "contests": cs, "B": B, "alpha": alpha, "base": rng.choice([0, 0, 20.5, 191]), "mode": mode,
             "weights": kind}
 
@@ -80,6 +80,10 @@ def impl_stage(case):
         d = None
     elif case["weights"] == "dict":
         d = {f"S{i:02d}": c["w"] for i, c in enumerate(cs)}
+    elif case["weights"] == "wrong-size:too-few":
+        d = {f"S{i:02d}": c["w"] for i, c in enumerate(cs[:-1])}
+    elif case["weights"] == "wrong-size:empty":
+        d = {}
     else:
         d = {f"S{i:02d}": c["w"] for i, c in enumerate(cs)}
         d["EXTRA"] = 1
@@ -138,7 +142,7 @@ def stage(run, driver, n):
                        max(x["pred"] - (a - b) for a, b in zip(x["d1"], x["d2"])) for x in c["contests"])
         run.case(L, straddle)
         run.count("stage " + c["mode"])
-        if c["weights"] == "wrong-size":
+        if c["weights"].startswith("wrong-size"):
             if impl != {"raises": "BootstrapElectionModelException"}:
                 run.violation("a weight dictionary of the wrong size was not rejected", input=L, impl=impl,
                               predicate="wrong_size_rejected", signature="C08:size")
